@@ -1675,3 +1675,128 @@ Proof. split; reflexivity. Qed.
 Example without_deprecate_differs :
   full_pure rx_H rx_before rx_heap 20 1 <> full_pure rx_H rx_before (upd_nth rx_heap 1 (with_cls rx_old_task 1)) 20 1.
 Proof. vm_compute. intros E. discriminate E. Qed.
+
+(* =========================================================================================
+   Two directories stored under two FORMER identifiers of ONE configuration (a class renamed twice, a job run
+   before and after each renaming ...): the hypothesis "claimed by no other directory" of fix_reaches.      *)
+Open Scope Z_scope.
+
+(* link mode: the claimant of n that is examined FIRST gets the new path, whatever comes later *)
+Theorem first_claimant_reaches : forall o1 pr post w k d n,
+  wf w -> active w k d n -> lookup n w = None ->
+  (forall x dx, In x pr -> lookup x w = Some (Dir dx) -> d_recomp dx <> Some n) ->
+  let w' := fix_ws true false o1 (pr ++ k :: post) w in
+  exists d', resolve w' n = Some (k, d') /\ core d' = core d /\ incl (d_done d) (d_done d') /\
+             (In (k_name k) (d_done d) -> found w' n = true).
+Proof.
+  intros o1 pr post w k d n Hw (L & P & R & I) Hfree Hpre. unfold fix_ws, run. cbn [andb].
+  unfold mainpass. rewrite fold_left_app. cbn [fold_left].
+  (* 1. the steps before k leave n free and k where it is *)
+  assert (Q : forall l w0, (forall x, In x l -> In x pr) ->
+            wf w0 -> lookup n w0 = None -> (exists dk, lookup k w0 = Some (Dir dk) /\ grows d dk) ->
+            (forall x dx, In x pr -> lookup x w0 = Some (Dir dx) -> d_recomp dx <> Some n) ->
+            let w1 := fold_left (main_step true true false) l w0 in
+            wf w1 /\ lookup n w1 = None /\ (exists dk, lookup k w1 = Some (Dir dk) /\ grows d dk)).
+  { induction l as [|x l IH]; intros w0 Hl W0 N0 K0 C0; cbn [fold_left]; [repeat split; assumption|].
+    assert (Hx : In x pr) by (apply Hl; left; reflexivity).
+    assert (Dxk : x <> k).
+    { intros ->. destruct K0 as (dk & Lk & [Ck _]). apply (C0 k dk Hx Lk).
+      unfold core in Ck. inversion Ck. congruence. }
+    apply IH.
+    - intros y Hy. apply Hl. right. exact Hy.
+    - apply wf_step. exact W0.
+    - destruct (active_dec w0 x) as [(dx & nx & A)|A]; [|rewrite step_inactive by exact A; exact N0].
+      rewrite (step_active _ _ _ _ _ _ A). apply (frame_none true false w0 x dx nx A); [exact N0|].
+      intros ->. destruct A as (Lx & _ & Rx & _). exact (C0 x dx Hx Lx Rx).
+    - destruct K0 as (dk & Lk & G). exists dk. split; [|exact G].
+      destruct (active_dec w0 x) as [(dx & nx & A)|A]; [|rewrite step_inactive by exact A; exact Lk].
+      rewrite (step_active _ _ _ _ _ _ A). apply (frame_dir true false w0 x nx); [exact Lk|congruence].
+    - intros y dy Hy Ly.
+      destruct (step_link_dir_rev true w0 x y dy W0 Ly) as [[_ Ly0]|[-> [d0 Ly0]]]; [exact (C0 y dy Hy Ly0)|].
+      (* y = x: its content may have grown, its recomputed identity has not *)
+      destruct (active_dec w0 x) as [(dx & nx & A)|A].
+      + destruct A as (Lx & Px & Rx & Ix). intros Rn.
+        assert (A : active w0 x dx nx) by (repeat split; assumption).
+        rewrite (step_active _ _ _ _ _ _ A) in Ly.
+        destruct (act_link_k true w0 x dx nx A) as (d1 & L1 & C1 & _). cbn zeta in L1. rewrite L1 in Ly. inversion Ly; subst d1.
+        unfold core in C1. inversion C1. apply (C0 x dx Hx Lx). congruence.
+      + rewrite step_inactive in Ly by exact A. exact (C0 x dy Hy Ly). }
+  destruct (Q pr w (fun x H => H) Hw Hfree (ex_intro _ d (conj L (grows_refl d))) Hpre) as (W1 & N1 & dk & Lk & [Ck Ik]).
+  set (w1 := fold_left (main_step true true false) pr w) in *.
+  assert (Ek : d_params dk = true /\ d_recomp dk = Some n) by (unfold core in Ck; inversion Ck; split; congruence).
+  destruct Ek as [Pk Rk].
+  assert (A1 : active w1 k dk n) by (repeat split; assumption).
+  (* 2. the step of k creates the link n -> k *)
+  rewrite (step_active _ _ _ _ _ _ A1).
+  assert (Hkn : key_eqb n k = false).
+  { apply key_eqb_neq. intros E. apply I. rewrite E. reflexivity. }
+  assert (Epre : pre w1 n = w1).
+  { unfold pre, is_link. rewrite N1. reflexivity. }
+  assert (R2 : exists d2, resolve (act true false w1 k n) n = Some (k, d2) /\ grows dk d2 /\
+                          (In (k_name k) (d_done dk) -> In (k_name n) (d_done d2))).
+  { unfold act. rewrite Epre. rewrite (resolve_none w1 n N1).
+    exists (alias (k_name k) (k_name n) dk). split; [|split; [apply alias_grows|apply alias_done]].
+    apply resolve_link.
+    - rewrite lookup_update_dir. rewrite key_eqb_sym, Hkn. rewrite lookup_add_link, N1, key_eqb_refl. reflexivity.
+    - rewrite lookup_update_dir, key_eqb_refl. rewrite lookup_add_link, Lk. reflexivity. }
+  destruct R2 as (d2 & R2 & [C2 I2] & D2).
+  (* 3. the later steps preserve what n leads to *)
+  destruct (rpres_mainpass_link true post (act true false w1 k n) maxhops n k d2 (le_n _) R2) as (d3 & R3 & [C3 I3]).
+  unfold mainpass in R3. exists d3. split; [exact R3|]. split; [congruence|].
+  split; [intros z Hz; apply I3, I2, Ik; exact Hz|].
+  intros Hd. unfold found, resolve. rewrite R3. apply memZ_in. apply I3. apply D2. apply Ik. exact Hd.
+Qed.
+
+(* THE LIMITATION.  k1 never finished, k2 holds a finished result, both recompute to n, n is free.  Whatever the
+   mode: if the file system lists k1 first the new identifier leads to k1 - a re-submit does not find the result
+   that exists -, if it lists k2 first it leads to k2; in either case the other directory is not reachable under
+   the new identifier ("every job directory stored under a former identifier" cannot hold: there is one path). *)
+Definition tc_k1 : key := mkkey 1 1 11.
+Definition tc_k2 : key := mkkey 1 1 12.
+Definition tc_n : key := mkkey 1 1 20.
+Definition tc_d1 : data := mkdata 101 true (Some tc_n) [].
+Definition tc_d2 : data := mkdata 102 true (Some tc_n) [1].
+Definition tc_w : ws := [(tc_k1, Dir tc_d1); (tc_k2, Dir tc_d2)].
+
+Theorem two_former_identifiers_refuted :
+  wf tc_w /\ active tc_w tc_k1 tc_d1 tc_n /\ active tc_w tc_k2 tc_d2 tc_n /\ lookup tc_n tc_w = None /\
+  forall cl,
+    option_map (fun r => d_mark (snd r)) (resolve (fix_ws true cl [tc_k1; tc_k2] [tc_k1; tc_k2] tc_w) tc_n) = Some 101 /\
+    found (fix_ws true cl [tc_k1; tc_k2] [tc_k1; tc_k2] tc_w) tc_n = false /\
+    option_map (fun r => d_mark (snd r)) (resolve (fix_ws true cl [tc_k2; tc_k1] [tc_k2; tc_k1] tc_w) tc_n) = Some 102 /\
+    found (fix_ws true cl [tc_k2; tc_k1] [tc_k2; tc_k1] tc_w) tc_n = true.
+Proof.
+  split; [repeat constructor; simpl; intuition discriminate|].
+  split; [repeat split; simpl; discriminate|].
+  split; [repeat split; simpl; discriminate|].
+  split; [reflexivity|]. intros [|]; repeat split.
+Qed.
+
+(* the hypotheses of first_claimant_reaches hold for the directory examined first, in both orders *)
+Example first_claimant_hyps_sat :
+  (forall x dx, In x [] -> lookup x tc_w = Some (Dir dx) -> d_recomp dx <> Some tc_n) /\
+  found (fix_ws true false [] ([] ++ tc_k2 :: [tc_k1]) tc_w) tc_n = true.
+Proof. split; [intros x dx []|reflexivity]. Qed.
+Close Scope Z_scope.
+
+(* the hypotheses of deprecate_same_identifier / deprecate_same_full_identifier are satisfiable: the instance above *)
+Example deprecate_hyps_sat :
+  nth_error rx_before 2 = Some (rx_task [111]%N) /\ nth_error rx_before 1 = Some (rx_task [116]%N) /\ 2 <> 1 /\
+  Permutation (c_args (rx_task [111]%N)) (c_args (rx_task [116]%N)) /\ NoDup (map a_name (c_args (rx_task [111]%N))) /\
+  (forall s : nat * nat, In s [] -> fst s <> 2 /\ fst s <> 1) /\
+  nth_error rx_heap 1 = Some rx_old_task /\ n_cls rx_old_task = 2 /\
+  exists d, full_pure rx_H (deprecate_all rx_before ([] ++ (2, 1) :: [])) rx_heap 20 1 = Ok d.
+Proof.
+  split; [reflexivity|]. split; [reflexivity|]. split; [lia|]. split; [apply Permutation_refl|].
+  split; [cbn; repeat constructor; cbn; intuition discriminate|]. split; [intros s []|].
+  split; [reflexivity|]. split; [reflexivity|]. eexists. vm_compute. reflexivity.
+Qed.
+
+(* `--cleanup` MOVES the directory: its former path no longer exists afterwards (in link mode it still does).  Whatever
+   pointed at the former path from outside jobs/ - the links xp/<name>/jobs/<type>/<id> the scheduler makes for the
+   experiments, which `orphans` reads - dangles unless the command re-points it (fixes/C20-4; the workspace model has
+   no xp/ part: observed by the oracle, key C20:experiment-index-broken:cleanup)                                  *)
+Lemma cleanup_moves_former_path :
+  lookup xk (fix_ws true true [] [xk] xw) = None /\ lookup xn (fix_ws true true [] [xk] xw) <> None /\
+  exists d', lookup xk (fix_ws true false [] [xk] xw) = Some (Dir d').
+Proof. split; [reflexivity|]. split; [discriminate|]. eexists. reflexivity. Qed.
